@@ -20,6 +20,7 @@ def run(tier, replay_file=None):
     c14.long_token_transport(C['chk'])
     c14.part_results_page(C, kmax=3 if tier == 'quick' else 5)
     c14.part_page_limit(C)
+    c14.part_whichpage(C)      # the first page's scan mode is what the client asked for (every non-token parameter reaches the scan type)
     facts_ok = all(o['result'] == 'unsat' for o in chk.obligations[n_before:]) and not chk.violations and not chk.mismatches
     chk.extra['framework_facts_from_mir'] = {'obligations': len(chk.obligations) - n_before, 'all_discharged': facts_ok}
 
